@@ -1,0 +1,119 @@
+//go:build verif
+
+// Contracts for the gowp verification-condition generator (see /verif/DESIGN.md).
+//
+// This file contains comments only. It is compiled solely under the build tag "verif"
+// and declares nothing, so it cannot change the behaviour of the package.
+// Each "//@ func <name>" block binds to the function or method of that name; loops are
+// referred to by ordinal (source order), never by line.
+
+package rapid
+
+// ---------------------------------------------------------------------------------------------
+// Ghost state
+//
+// drawn:  number of words handed out so far by the bit stream in use (mathematical integer).
+// gbegin: position at which the group with a given token was begun. A token is never re-bound to
+//         a different position (persisting streams hand out fresh group indices, non-persisting ones
+//         use the position itself as the token), so gbegin is a fixed function of one run.
+
+//@ ghost drawn Int
+//@ ghost gbegin (Array (_ BitVec 64) Int)
+
+// ---------------------------------------------------------------------------------------------
+// bitStream: interface contract. Generators are verified against this contract only, i.e. for a
+// havoc'd stream: every word sequence, PRNG-produced or not, is covered.
+
+//@ func bitStream.drawBits
+//@   params s, n
+//@   requires [C03] n >= 0
+//@   ensures implies(n <= 64, result <= mask(n))
+//@   ensures drawn == old(drawn) + 1
+//@   panics invalidData: drawn == old(drawn)
+//@   modifies drawn
+
+//@ func bitStream.beginGroup
+//@   params s, label, standalone
+//@   ensures gbegin[result] == drawn
+
+//@ func bitStream.endGroup
+//@   params s, i, discard
+//@   requires [C03] discard || drawn > gbegin[i]
+
+// ---------------------------------------------------------------------------------------------
+// utils.go
+
+//@ func bitmask64
+//@   ensures [C03] result == mask(n)
+
+//@ func genFloat01
+//@   ensures [C03] 0 <= result && result < 1
+//@   ensures drawn == old(drawn) + 1
+//@   panics invalidData: drawn == old(drawn)
+//@   modifies drawn
+
+//@ func genGeom
+//@   requires [C03] p > 0 && p <= 1
+//@   ensures [C03] implies(p >= 1.0/17.0, result <= 630)
+//@   ensures drawn == old(drawn) + 1
+//@   panics invalidData: drawn == old(drawn)
+//@   modifies drawn
+
+//@ func genUintNNoReject
+//@   ensures [C03] result <= max
+//@   ensures drawn > old(drawn)
+//@   panics invalidData: drawn >= old(drawn)
+//@   modifies drawn
+
+//@ func genUintNUnbiased
+//@   ensures [C03] result <= max
+//@   ensures drawn > old(drawn)
+//@   panics invalidData: drawn >= old(drawn)
+//@   modifies drawn
+//@   loop 0 invariant drawn >= old(drawn)
+
+//@ func genUintNBiased
+//@   ensures [C03] result0 <= max
+//@   ensures [C03] implies(result1, result0 == 0) && implies(result2, result0 == max)
+//@   ensures drawn > old(drawn)
+//@   panics invalidData: drawn >= old(drawn)
+//@   modifies drawn
+//@   loop 0 invariant [C03] 0 <= bitlen && bitlen <= 65 && 1 <= n && n <= 631
+//@   loop 0 invariant drawn > old(drawn)
+
+//@ func genUintN
+//@   ensures [C03] result0 <= max
+//@   ensures [C03] implies(result1, result0 == 0) && implies(result2, result0 == max)
+//@   ensures drawn > old(drawn)
+//@   panics invalidData: drawn >= old(drawn)
+//@   modifies drawn
+
+//@ func genUintRange
+//@   requires [C03] min <= max
+//@   ensures [C03] min <= result0 && result0 <= max
+//@   ensures [C03] implies(result1, result0 == min) && implies(result2, result0 == max)
+//@   ensures drawn > old(drawn)
+//@   panics invalidData: drawn >= old(drawn)
+//@   modifies drawn
+
+//@ func genIntRange
+//@   requires [C03] min <= max
+//@   ensures [C03] min <= result0 && result0 <= max
+//@   ensures [C03] implies(result1, result0 == min) && implies(result2, result0 == max)
+//@   ensures drawn > old(drawn)
+//@   panics invalidData: drawn >= old(drawn)
+//@   modifies drawn
+
+//@ func genIndex
+//@   requires [C03] n > 0
+//@   ensures [C03] 0 <= result && result < n
+//@   ensures drawn > old(drawn)
+//@   panics invalidData: drawn >= old(drawn)
+//@   modifies drawn
+
+//@ func flipBiasedCoin
+//@   requires [C03] p >= 0 && p <= 1
+//@   ensures [C03] implies(p == 0, !result) && implies(p == 1, result)
+//@   ensures drawn == old(drawn) + 1
+//@   panics invalidData: drawn == old(drawn)
+//@   modifies drawn
